@@ -889,6 +889,497 @@ async def c13_impl(cases):
         os.unlink(path)
 
 
+# ---- C13, sessions: every save of ONE running gateway must write the registry it holds ----------
+#
+# The property quantifies over every registry the gateway can reach from received messages.  The cases above reach a
+# registry and hand it to a fresh Persistence object; an application never does that: it runs ONE gateway with a
+# persistence file, and that gateway's own Persistence object saves again and again (the scheduled save when the
+# session starts and every SAVE_INTERVAL seconds, explicit `gateway.persistence.save()` calls, the final save on
+# exit) while messages keep changing the registry in between - including messages whose handling ends in an error
+# AFTER the registry was changed (a presentation whose version cannot be parsed, a write that fails or is cancelled
+# while a reaction is sent).  After EVERY completed save the file must load, into an empty registry, to exactly the
+# registry the gateway holds at that moment.
+
+
+class ClockLoop(asyncio.SelectorEventLoop):
+    """The ordinary event loop (real files, real executor threads) whose clock can be moved forward: every timer of
+    the code under test (the sleep between two scheduled saves, wherever and however it is written) then expires."""
+
+    def __init__(self) -> None:
+        super().__init__()
+        self.ahead = 0.0
+
+    def time(self) -> float:
+        return super().time() + self.ahead
+
+
+class SaveWatch:
+    """Counts the saves of one Persistence object (also the ones of its saver task) so that the harness only looks
+    at the file, and only lets traffic through, while no save is in flight (determinism; not part of the oracle)."""
+
+    def __init__(self, p) -> None:
+        self.started = self.finished = 0
+        self.last = None
+        self.event = asyncio.Event()
+        inner = p.save
+
+        async def save(*a, **k):
+            self.started += 1
+            try:
+                r = await inner(*a, **k)
+                self.last = "ok"
+                return r
+            except BaseException as e:  # noqa: BLE001
+                self.last = outcome_of(e) if not isinstance(e, asyncio.CancelledError) else "cancelled"
+                raise
+            finally:
+                self.finished += 1
+                self.event.set()
+
+        p.save = save
+
+    def idle(self) -> bool:
+        return self.started == self.finished
+
+
+SESSION_GUARD = 20.0
+
+
+async def quiesce(watch: SaveWatch, more_than: int | None = None, patience: float = 0.05) -> bool:
+    """Wait until no save is in flight and (if asked) one more save than `more_than` has finished.  Gives up on a save
+    that never starts only after both a dozen turns of the event loop and `patience` seconds (a saver task starts its
+    save within three turns; wall time alone would make a stalled process look like a missing save)."""
+    import time as _t
+
+    t0 = _t.monotonic()
+    spins = 0
+    while True:
+        await asyncio.sleep(0)
+        spins += 1
+        if watch.idle():
+            if more_than is None or watch.finished > more_than:
+                return True
+            if spins >= 12:
+                if _t.monotonic() - t0 > patience:
+                    return False
+                await asyncio.sleep(0.001)
+            continue
+        if _t.monotonic() - t0 > SESSION_GUARD:
+            raise RuntimeError("a save of the session did not finish")
+        watch.event.clear()
+        try:
+            await asyncio.wait_for(watch.event.wait(), 0.01)
+        except asyncio.TimeoutError:
+            pass
+
+
+def _interval() -> float:
+    import aiomysensors.persistence as pm
+
+    v = getattr(pm, "SAVE_INTERVAL", 900)
+    return float(max(v, 900)) if isinstance(v, (int, float)) and not isinstance(v, bool) else 900.0
+
+
+_LOADED: dict = {}
+
+
+async def run_session(sc: dict) -> dict:
+    """One scenario on the real Gateway with a real persistence file.  Returns the trace of the steps and one record
+    per save point: what the file loaded to (fresh Persistence, empty registry, a copy of the file) vs the registry."""
+    from aiomysensors.gateway import Config, Gateway
+
+    loop = asyncio.get_running_loop()
+    path = fresh_path()
+    tr = gw.FaultTransport()
+    if sc["preload"]:          # the file an earlier run left behind
+        pre, _ = gw.build_gateway(gw.Hist(None, True, [tuple(p) for p in sc["preload"]], []))
+        await impl_save(path, pre.nodes)
+    g = Gateway(tr, Config(metric=sc["metric"], persistence_file=path))
+    if sc["version"] is not None:
+        g.protocol_version = sc["version"]
+    watch = SaveWatch(g.persistence)
+    trace: list[str] = []
+    points: list[dict] = []
+    marks = {"writes": {}, "dirty_error_steps": 0, "ticks_missed": 0}
+    judged_before = [0]
+
+    async def point(kind: str, step: int, outcome: str | None = None) -> None:
+        observed = watch.finished > judged_before[0]
+        judged_before[0] = watch.finished
+        outcome = outcome if outcome is not None else (watch.last if observed else None)
+        nodes = g.nodes
+        rec = {"kind": kind, "step": step, "save": outcome, "observed": observed, "registry": render_nodes(nodes),
+               "domain": in_domain(nodes), "nth": len(points)}
+        if observed and outcome == "ok" and os.path.exists(path):
+            with open(path, "rb") as f:
+                rec["bytes"] = f.read()
+            if rec["bytes"] not in _LOADED:      # load (fresh Persistence, empty registry, a copy of the file) is a function of the bytes
+                cp = fresh_path()
+                with open(cp, "wb") as f:
+                    f.write(rec["bytes"])
+                _LOADED[rec["bytes"]] = await impl_load(cp)
+                os.unlink(cp)
+            rec["load"], loaded = _LOADED[rec["bytes"]]
+            rec["why"] = same_registry(nodes, loaded) if rec["load"].startswith("ok ") else None
+            rec["surrogate"] = reg_has_surrogate(nodes)
+            rec["ops"] = reg_ops(nodes)
+            if not rec["load"].startswith("ok ") or rec["why"]:
+                rec["describe"] = describe(nodes)
+        points.append(rec)
+
+    async def enter(step: int) -> str:
+        n0 = watch.finished
+        try:
+            await g.__aenter__()
+        except BaseException as e:  # noqa: BLE001
+            await quiesce(watch)
+            return outcome_of(e)
+        # a file that was missing is created by load (a save of its own); the saver task has not run yet
+        n1 = watch.finished
+        if n1 > n0 and watch.idle():
+            await point("created-by-load", step)
+        if await quiesce(watch, more_than=n1):
+            await point("scheduled-at-start", step)
+        return "ok"
+
+    async def leave(step: int) -> str:
+        try:
+            await g.__aexit__(None, None, None)
+            out = "ok"
+        except BaseException as e:  # noqa: BLE001
+            out = outcome_of(e)
+        await quiesce(watch)
+        await point("exit", step)
+        return out
+
+    out = await enter(0)
+    trace.append(f"0: enter the gateway context -> {out}")
+    listener = None
+    persistent = sc["style"] == 1
+    entered = out == "ok"
+    for i, op in enumerate(sc["ops"], 1):
+        tr.attempts = []
+        before = render_nodes(g.nodes)
+        if op[0] == "recv":
+            _, line, faults, now = op
+            tr.lines = [line]
+            tr.faults = list(faults)
+            gw.TIME_STUB.now = tuple(now)
+            if listener is None or not persistent:
+                if listener is not None:
+                    await listener.aclose()
+                listener = g.listen()
+            try:
+                out = gw.render_msg(await anext(listener))
+            except BaseException as e:  # noqa: BLE001
+                out = gw.render_exc(e)
+                listener = None
+            shown = f"receive {line[:120]!r}" + (f" write faults {gw.faults_tok(faults)}" if faults else "")
+        elif op[0] == "send":
+            _, fields, buffer, faults = op
+            tr.faults = list(faults)
+            try:
+                await g.send(Message(*fields) if fields is not None else "not a message", message_buffer=buffer)
+                out = "ok"
+            except BaseException as e:  # noqa: BLE001
+                out = gw.render_exc(e)
+            shown = f"send {fields}" + (f" write faults {gw.faults_tok(faults)}" if faults else "")
+        elif op[0] == "reboot":
+            n = g.nodes.get(op[1])
+            if n is not None:
+                n.reboot = True
+            out, shown = ("ok" if n is not None else "no such node"), f"the application asks for a reboot of node {op[1]} (node.reboot = True)"
+        elif op[0] == "save":
+            shown = "gateway.persistence.save()"
+            try:
+                await g.persistence.save()
+                out = "ok"
+            except BaseException as e:  # noqa: BLE001
+                out = outcome_of(e)
+            await quiesce(watch)
+            await point("explicit", i, out)
+        elif op[0] == "tick":
+            shown = "the save interval passes"
+            n0 = watch.finished
+            loop.ahead += _interval() + 1
+            if entered and await quiesce(watch, more_than=n0):
+                await point("scheduled", i)
+                out = "scheduled save done"
+            else:
+                out = "no scheduled save observed"
+                marks["ticks_missed"] += 1
+        elif op[0] == "session":
+            shown = "leave the gateway context and enter it again"
+            if listener is not None:
+                await listener.aclose()
+                listener = None
+            out = await leave(i) if entered else "not entered"
+            out2 = await enter(i)
+            entered = out2 == "ok"
+            out = f"exit {out}, enter {out2}"
+        else:
+            raise RuntimeError(f"unknown session operation {op!r}")
+        if op[0] in ("recv", "send"):
+            marks["writes"][i] = len(tr.attempts)
+            changed = render_nodes(g.nodes) != before
+            if changed and not out.startswith("ok"):
+                marks["dirty_error_steps"] += 1
+            out += f"  [writes {sum(1 for _, ok in tr.attempts if ok)}/{len(tr.attempts)}" + ("; registry changed]" if changed else "]")
+        trace.append(f"{i}: {shown} -> {out}")
+    if listener is not None:
+        await listener.aclose()
+    if entered:
+        out = await leave(len(sc["ops"]) + 1)
+        trace.append(f"{len(sc['ops']) + 1}: leave the gateway context -> {out}")
+    if os.path.exists(path):
+        os.unlink(path)
+    return {"trace": trace, "points": points, "marks": marks}
+
+
+def point_failure(p: dict) -> str | None:
+    """The property at one save point: the file the session's save wrote loads to the registry held."""
+    if not p["observed"]:
+        return None
+    if p["save"] != "ok":
+        return f"save failed: {p['save']}"
+    if "load" not in p:
+        return "save returned but there is no file"
+    if not p["load"].startswith("ok "):
+        return f"a file written by save is not accepted by load: {p['load']}"
+    if p["why"]:
+        return ("the file written by a save of the running gateway does not load to the registry the gateway holds: " + p["why"]
+                + " (registry held vs loaded from the file)")
+    return None
+
+
+def session_failure(res: dict):
+    for p in res["points"]:
+        why = point_failure(p)
+        if why:
+            return p, why
+    return None
+
+
+T1 = list(gw.DEFAULT_TIME)
+
+
+def _recv(line: str, faults=()) -> list:
+    return ["recv", line, list(faults), T1]
+
+
+def session_contexts(version: str | None):
+    """(name, reported version at start, steps that build a registry with content) for one protocol version."""
+    v = version
+    base = [_recv(f"0;255;0;0;18;{v}.0"), _recv(f"1;255;0;0;17;{v}"), _recv("1;255;3;0;11;Grön sensor"), _recv("1;255;3;0;12;1.0"),
+            _recv("1;1;0;0;6;outdoor temp"), _recv("1;1;1;0;0;20.5"), _recv("1;255;3;0;0;80"), _recv(f"2;255;0;0;17;{v}"),
+            _recv("2;0;0;0;3;relay")]
+    ctxs = [("plain", v, base)]
+    # the application has asked for a reboot of the node: the next set is answered with a reboot command
+    ctxs.append(("reboot requested", v, base + [["reboot", 1]]))
+    # the gateway never told its version: every handled message is followed by a version request
+    ctxs.append(("version unknown", None, base[1:]))
+    if v in ("2.0", "2.1", "2.2"):
+        sleep = _recv("1;255;3;0;22;100") if v in ("2.0", "2.1") else _recv("1;255;3;0;32;500")
+        ctxs.append(("asleep with buffered commands", v, base + [sleep, ["send", [1, 1, 1, 0, 0, "18.0"], True, []],
+                                                               ["send", [1, 1, 1, 0, 2, "1"], True, []]]))
+    return ctxs
+
+
+def session_updates(version: str):
+    """Messages whose handler changes (or may change) the registry: one of every kind the handlers know."""
+    v = version
+    other = "1.4" if v != "1.4" else "2.2"
+    ups = [("node presented again", f"1;255;0;0;18;{v}.1"), ("new node presented", f"7;255;0;0;17;{v}"),
+           ("gateway presented again", f"0;255;0;0;18;{v}.1"), ("gateway presented, version cannot be parsed", "0;255;0;0;18;2.x"),
+           ("gateway presented, empty version", "0;255;0;0;18;"), ("gateway presented with another protocol's version", f"0;255;0;0;17;{other}"),
+           ("child presented", "1;2;0;0;7;humidity"), ("child presented again", "1;1;0;0;3;changed é"),
+           ("value changed", "1;1;1;0;0;21.5"), ("value of a new type", "1;1;1;0;2;1"), ("battery level", "1;255;3;0;0;79"),
+           ("sketch name", "1;255;3;0;11;Other"), ("sketch version", "1;255;3;0;12;2.0"), ("id request", "255;255;3;0;3;"),
+           ("value from an unknown child", "1;9;1;0;0;1"), ("value from an unknown node", "9;1;1;0;0;1")]
+    if v in ("2.0", "2.1", "2.2"):
+        ups += [("heartbeat", "1;255;3;0;22;200"), ("heartbeat of the other node", "2;255;3;0;22;5")]
+    if v == "2.2":
+        ups += [("pre-sleep notification", "1;255;3;0;32;500")]
+    return ups
+
+
+FAULT_PATTERNS = [(), (True,), (False, True), (gw.CANCEL,), (False, gw.CANCEL)]
+SAVE_KINDS = [["save"], ["tick"], ["session"]]
+
+
+def systematic_sessions(seed: int, tier: str):
+    """save -> one registry-changing message, ending in every way a step can end -> (other traffic) -> save -> exit,
+    for every kind of change and every context; the kind of the two saves and the traffic in between rotate."""
+    pairs: dict = {}
+    for version in lib.VERSIONS:
+        for cname, start, setup in session_contexts(version):
+            for uname, line in session_updates(version):
+                pairs.setdefault((cname, uname), []).append((version, start, setup, line))
+    out = []
+    k = seed
+    for pi, ((cname, uname), applicable) in enumerate(pairs.items()):
+        # quick tier: every (context, change) pair on two of the versions that have it, rotating with the seed
+        if tier == "quick":
+            picked = {(pi + seed) % len(applicable), (pi + seed + 2) % len(applicable)}
+            applicable = [a for i, a in enumerate(applicable) if i in picked]
+        for version, start, setup, line in applicable:
+            group = []
+            for faults in FAULT_PATTERNS:
+                k += 1
+                first = SAVE_KINDS[k % 3]
+                trailing = [[], [_recv("2;0;1;0;2;1")], [_recv("1;255;3;0;0;abc")], [_recv("2;0;1;0;2;0"), _recv("1;9;2;0;0;")]][(k // 3) % 4]
+                last = [[["save"]], [["tick"]], []][(k // 12) % 3]
+                ops = setup + [first] + [_recv(line, faults)] + trailing + last
+                group.append({"label": f"systematic: {cname}; {uname}; protocol {version}; faults {gw.faults_tok(faults)}", "version": start,
+                              "metric": True, "preload": [], "style": k % 2, "ops": ops, "mark": len(setup) + 2})
+            out.append(group)
+    return out
+
+
+def random_sessions(rng, tier: str):
+    out = []
+    n = 80 if tier == "quick" else 800
+    for i in range(n):
+        version = lib.VERSIONS[i % 5]
+        h = gw.gen_history(rng, version, rng.randint(8, 30 if tier == "quick" else 60), send_ratio=0.2, fault_ratio=0.3,
+                           preload_p=0.4, cancel_ratio=0.25)
+        ops = []
+        for op in h.ops:
+            ops.append([op[0], op[1] if op[0] == "recv" else (list(op[1]) if op[1] is not None else None),
+                        list(op[2]) if op[0] == "recv" else op[2], list(op[3])])
+            r = rng.random()
+            if r < 0.12:
+                ops.append(["save"])
+            elif r < 0.18:
+                ops.append(["tick"])
+            elif r < 0.22:
+                ops.append(["session"])
+            elif r < 0.25:
+                ops.append(["reboot", rng.choice(gw.NODES)])
+        out.append({"label": "random", "version": h.version, "metric": h.metric, "preload": [list(p) for p in h.preload],
+                    "style": i % 2, "ops": ops})
+    return out
+
+
+async def shrink_session(sc: dict, budget: int = 60) -> tuple[dict, dict]:
+    """Drop operations one at a time while some save point still fails (a shorter history for the replay file)."""
+    best, res = sc, await run_session(sc)
+    progress = True
+    while progress and budget > 0:
+        progress = False
+        for i in range(len(best["ops"]) - 1, -1, -1):
+            if budget <= 0:
+                break
+            cand = {**best, "ops": best["ops"][:i] + best["ops"][i + 1:]}
+            budget -= 1
+            r = await run_session(cand)
+            if session_failure(r):
+                best, res, progress = cand, r, True
+    return best, res
+
+
+def session_checks(ctx, corr: Corr, batch: "Batch") -> list:
+    """Runs the session scenarios, judges every save point by the oracle, queues the model's questions; returns the
+    list of (point, scenario, handles) to compare after the batch ran."""
+    rng = lib.rng_for(ctx.seed, "c13-sessions")
+    pending = []
+    seen_model: set = set()
+
+    async def main():
+        results = []
+        for group in systematic_sessions(ctx.seed, ctx.tier):
+            writes = None
+            for sc, faults in zip(group, FAULT_PATTERNS):
+                if writes is not None and len(faults) > writes:
+                    corr.count("session: fault pattern skipped (the step writes less often)")
+                    continue
+                res = await run_session(sc)
+                if not faults:
+                    writes = res["marks"]["writes"].get(sc["mark"], 0)
+                results.append((sc, res))
+        for sc in random_sessions(rng, ctx.tier):
+            results.append((sc, await run_session(sc)))
+        shrunk = 0
+        for sc, res in results:
+            bad = session_failure(res)
+            if bad and shrunk < 3 and len(sc["ops"]) > 1:
+                shrunk += 1
+                small, sres = await shrink_session(sc)
+                if session_failure(sres):
+                    res["shrunk"] = (small, sres)
+        return results
+
+    results = asyncio.run(main(), loop_factory=ClockLoop)
+    for sc, res in results:
+        kind = sc["label"].split(":")[0].split(";")[0]
+        corr.count(f"session scenarios ({kind})")
+        corr.count("session steps that end in an error after the registry changed", res["marks"]["dirty_error_steps"])
+        if res["marks"]["ticks_missed"]:
+            corr.count("session: save interval passed without an observed save (not judged)", res["marks"]["ticks_missed"])
+        regs = []
+        for p in res["points"]:
+            if not p["observed"]:
+                corr.count("session save point not judged (no save observed)")
+                continue
+            corr.count("session save:" + p["kind"])
+            regs.append(p["registry"])
+        bad = session_failure(res)
+        if bad:
+            p, why = bad
+            use_sc, use_res, use_p = sc, res, p
+            if "shrunk" in res:
+                use_sc, use_res = res["shrunk"]
+                use_p, why = session_failure(use_res)
+            corr.violate(why, {"scenario": use_sc["label"], "steps": use_res["trace"],
+                               "failing_save": {"kind": use_p["kind"], "at_step": use_p["step"]},
+                               "session": {k: use_sc[k] for k in ("version", "metric", "preload", "style", "ops")},
+                               "registry_held": use_p.get("describe"), "file": use_p.get("bytes", b"")[:3000].decode("utf-8", "replace"),
+                               "operations_before_shrinking": len(sc["ops"])})
+        else:
+            for p in res["points"]:
+                if p["observed"] and not p["domain"]:
+                    corr.violate("a registry reached from received messages is outside the domain of the round-trip theorem "
+                                 "(node id / battery level / printable integers)",
+                                 {"session": {k: sc[k] for k in ("label", "version", "metric", "preload", "style", "ops")},
+                                  "steps": res["trace"], "registry": p["registry"][:1500]})
+                    break
+        # non-trivial: the same Persistence object saved at least two different non-empty registries
+        distinct = [r for i, r in enumerate(regs) if r != "[]" and r not in regs[:i]]
+        corr.case(("session", json.dumps(sc["ops"]), sc["version"], sc["style"]), len(distinct) >= 2,
+                  {"label": "session: " + sc["label"], "steps": res["trace"][-6:], "saves": [p["kind"] for p in res["points"] if p["observed"]]})
+        # ---- model: every file the session wrote vs saveText / load (save r) of the registry held at that moment
+        if ctx.model_ok:
+            for p in res["points"]:
+                if "bytes" not in p or p["surrogate"]:
+                    continue
+                key = (tuple(p["ops"]), p["bytes"])
+                if key in seen_model:
+                    corr.count("session save point: model already asked about the same registry and file")
+                    continue
+                seen_model.add(key)
+                for op in p["ops"]:
+                    batch.ask(op)
+                pending.append((p, sc, res, {"savetext": batch.ask("savetext"), "loadsave": batch.ask("loadsave")}))
+    return pending
+
+
+def session_compare(corr: Corr, batch: "Batch", pending: list) -> None:
+    for p, sc, res, m in pending:
+        corr.count("session save point compared with the model")
+        rp = {"session": {k: sc[k] for k in ("label", "version", "metric", "preload", "style", "ops")}, "steps": res["trace"],
+              "save": {"kind": p["kind"], "after_step": p["step"]}}
+        text = p["bytes"].decode("utf-8", "replace")
+        if batch[m["savetext"]] != hexb(p["bytes"]):
+            mt = bytes.fromhex(batch[m["savetext"]].replace("-", "")).decode("utf-8", "replace")
+            k = next((i for i, (x, y) in enumerate(zip(mt, text)) if x != y), min(len(mt), len(text)))
+            corr.disagree("bytes written by a save of the running gateway vs saveText of the registry it holds",
+                          {**rp, "first_difference_at": k, "impl": text[max(0, k - 200):k + 200], "model": mt[max(0, k - 200):k + 200]})
+        ls = batch[m["loadsave"]]
+        if ls.startswith("ok ") != p["load"].startswith("ok ") or (ls.startswith("ok ") and parse_reg(ls[3:]) != parse_reg(p["load"][3:])) \
+                or (not ls.startswith("ok ") and ls != p["load"]):
+            corr.disagree("load of the file a running gateway saved vs load (save r)", {**rp, "impl": p["load"][:1500], "model": ls[:1500]})
+
+
 def run_c13(ctx) -> Corr:
     corr = Corr("C13", "registries reached by running wire histories on the real Gateway (boundary histories named by the "
                 "property, then random histories over 5 versions) and directly constructed registries (boundary content: "
@@ -904,8 +1395,18 @@ def run_c13(ctx) -> Corr:
                 "hand-written edge texts (whitespace, escapes, surrogates, duplicate keys, leading zeros, digit limit, "
                 "trailing commas, comments, NaN), on every proper prefix of several saved files, on single-character "
                 "edits of saved files and on valid / invalid UTF-8 (texts the model calls unsupported - real literals, "
-                "lone surrogates - are skipped). non-trivial = registry has a child, a "
-                "value, a non-default attribute, or lies outside the domain")
+                "lone surrogates - are skipped); sessions: ONE real Gateway with a real persistence file on the ordinary "
+                "event loop (clock movable), whose own Persistence object saves repeatedly - the save a missing file causes, "
+                "the scheduled save at start and after each save interval, explicit saves, the save on exit, leaving and "
+                "re-entering the context - with traffic in between: systematically every kind of registry-changing message "
+                "(node/gateway/child presentation, new and changed; values; battery; sketch; id request; heartbeat; "
+                "pre-sleep; messages from unknown nodes/children) x every context (plain, reboot requested, version "
+                "unknown, asleep with buffered commands) x every way the step can end (handled, rejected after the change, "
+                "1st/2nd write failing or cancelled), and random histories with faults; oracle after EVERY completed save: "
+                "a copy of the file loads into an empty registry to exactly the registry the gateway holds; model compared "
+                "per save point on the file's bytes (saveText) and load (save r). non-trivial = registry has a child, a "
+                "value, a non-default attribute, or lies outside the domain; a session is non-trivial when its Persistence "
+                "object saved two different non-empty registries")
     corr._model_ok = ctx.model_ok
     rng = lib.rng_for(ctx.seed, "c13")
     cases = []
@@ -997,12 +1498,23 @@ def run_c13(ctx) -> Corr:
             if why:
                 corr.violate("the legacy and the native fixture load to different registries: " + why, {"native": o1, "legacy": o2})
         corr.case("fixtures:" + o1, True, {"label": "fixtures", "native": o1[:200], "legacy": o2[:200]})
+    # sessions: several saves by the gateway's own Persistence object, traffic (also failing steps) in between
+    import time as _t
+
+    t_sessions = _t.time()
+    pending = session_checks(ctx, corr, batch)
+    corr.notes.append(f"session scenarios: {_t.time() - t_sessions:.1f} s on the implementation, {len(pending)} save points queued for the model")
+    corr.notes.append("session scenarios (one Gateway with a persistence file; scheduled, explicit and exit saves with traffic in "
+                      "between) are judged by the oracle at every completed save; a session, its saver task and its file are not "
+                      "operations of the Lean model, which has no state between two saves: the model is compared per save point on "
+                      "the file's bytes (saveText of the registry held) and on load (save r)")
     if not ctx.model_ok:
         return corr
     check_boolean_tables(corr)
     tc = text_checks(corr, batch, cases, lib.rng_for(ctx.seed, "c13-text"), ctx.tier)
     batch.run()
     tc.compare()
+    session_compare(corr, batch, pending)
     for name, (out, _, h) in fx.items():
         if batch[h] != out:
             corr.disagree("fixture load", {"fixture": name, "impl": out, "model": batch[h]})
